@@ -15,11 +15,33 @@ fn keys(n: usize, salt: u64) -> Vec<String> {
     (0..n).map(|i| format!("key:{}:{}", salt, i)).collect()
 }
 
+thread_local! { static IDK: std::cell::Cell<u8> = std::cell::Cell::new(0); }
+/// Scenarios name nodes 1..8; the replica ids the real ring sees are these, mapped: small and dense, all equal
+/// modulo 64, beyond 2^32, sparse, at the top of u64.  The trace carries the scenario's names.
+fn real(i: u64) -> u64 {
+    match IDK.with(|k| k.get()) {
+        1 => 64 * i + 1,
+        2 => i + (1u64 << 32),
+        3 => i * 1000 + 7,
+        4 => u64::MAX - i,
+        _ => i,
+    }
+}
+fn logical(r: u64) -> u64 {
+    match IDK.with(|k| k.get()) {
+        1 => (r - 1) / 64,
+        2 => r - (1u64 << 32),
+        3 => (r - 7) / 1000,
+        4 => u64::MAX - r,
+        _ => r,
+    }
+}
+
 /// ops: ["add", id] | ["remove", id]
 fn build_ring(ops: &[Value], vnodes: u32, rf: usize) -> HashRing {
     let mut r = HashRing::new(vec![], vnodes, rf);
     for op in ops {
-        let id = ReplicaId::new(op[1].as_u64().unwrap());
+        let id = ReplicaId::new(real(op[1].as_u64().unwrap()));
         match op[0].as_str().unwrap() {
             "add" => r.add_node(id),
             _ => r.remove_node(id),
@@ -38,18 +60,18 @@ fn ranked(rings: &[&HashRing], ks: &[String]) -> (Vec<Value>, Vec<u64>) {
     let rank: HashMap<u64, u64> = all.iter().enumerate().map(|(i, p)| (*p, i as u64 + 1)).collect();
     let rj = rings
         .iter()
-        .map(|r| json!(r.verif_ring().iter().map(|(p, n)| json!([rank[p], n])).collect::<Vec<_>>()))
+        .map(|r| json!(r.verif_ring().iter().map(|(p, n)| json!([rank[p], logical(*n)])).collect::<Vec<_>>()))
         .collect();
     let kr = ks.iter().map(|k| rank[&HashRing::verif_key_position(k)]).collect();
     (rj, kr)
 }
 
 fn ids(v: &[ReplicaId]) -> Vec<u64> {
-    v.iter().map(|r| r.0).collect()
+    v.iter().map(|r| logical(r.0)).collect()
 }
 
 fn table_json(t: &HashMap<ReplicaId, Vec<redis_sim::replication::state::ReplicationDelta>>) -> Value {
-    let m: BTreeMap<u64, Vec<String>> = t.iter().map(|(r, ds)| (r.0, ds.iter().map(|d| d.key.clone()).collect())).collect();
+    let m: BTreeMap<u64, Vec<String>> = t.iter().map(|(r, ds)| (logical(r.0), ds.iter().map(|d| d.key.clone()).collect())).collect();
     json!(m.iter().map(|(r, ks)| json!([r, ks])).collect::<Vec<_>>())
 }
 
@@ -60,13 +82,14 @@ fn case(run: usize, scn: &Value) -> Value {
     let rf = scn["rf"].as_u64().unwrap() as usize;
     let nk = scn["nkeys"].as_u64().unwrap_or(20) as usize;
     let ks = keys(nk, scn["salt"].as_u64().unwrap_or(1));
+    IDK.with(|k| k.set(scn["idmap"].as_u64().unwrap_or(0) as u8));
     let ra = build_ring(&ops_a, vnodes, rf);
     let rb = build_ring(&ops_b, vnodes, rf);
     // the membership of A plus one extra node (for minimal disruption)
     let members: Vec<u64> = ids(ra.nodes());
     let extra = (1..=8u64).find(|x| !members.contains(x)).unwrap();
     let mut rbig = ra.clone();
-    rbig.add_node(ReplicaId::new(extra));
+    rbig.add_node(ReplicaId::new(real(extra)));
     let (rings, kranks) = ranked(&[&ra, &rb, &rbig], &ks);
     let n = members.len();
     let kj: Vec<Value> = ks
@@ -76,17 +99,17 @@ fn case(run: usize, scn: &Value) -> Value {
             let by_rf: Vec<Vec<u64>> = (1..=n + 1).map(|r| ids(&ra.get_replicas_with_rf(k, r))).collect();
             json!({"k": k, "pos": kr, "def": ids(&ra.get_replicas(k)), "by_rf": by_rf,
                    "b_def": ids(&rb.get_replicas(k)), "big_all": ids(&rbig.get_replicas_with_rf(k, n + 1)),
-                   "primary": ra.get_primary(k).map(|p| p.0).unwrap_or(0)})
+                   "primary": ra.get_primary(k).map(|p| logical(p.0)).unwrap_or(0)})
         })
         .collect();
     // routing: every member as sender; explicit peer table and from_config (contiguous ids 1..n only)
     let shared = Arc::new(RwLock::new(ra.clone()));
     let deltas: Vec<_> = ks.iter().enumerate().map(|(i, k)| mk_delta(&json!({"id": i, "k": k, "t": "set", "v": "v", "ts": 1, "r": 1}))).collect();
-    let contiguous = members.iter().copied().collect::<BTreeSet<_>>() == (1..=n as u64).collect::<BTreeSet<_>>();
+    let contiguous = IDK.with(|k| k.get()) == 0 && members.iter().copied().collect::<BTreeSet<_>>() == (1..=n as u64).collect::<BTreeSet<_>>();
     let mut routes = Vec::new();
     for &s in &members {
-        let peers: HashMap<ReplicaId, String> = members.iter().filter(|m| **m != s).map(|m| (ReplicaId::new(*m), format!("10.0.0.{m}:7000"))).collect();
-        let r1 = GossipRouter::new(shared.clone(), ReplicaId::new(s), peers.clone(), true);
+        let peers: HashMap<ReplicaId, String> = members.iter().filter(|m| **m != s).map(|m| (ReplicaId::new(real(*m)), format!("10.0.0.{m}:7000"))).collect();
+        let r1 = GossipRouter::new(shared.clone(), ReplicaId::new(real(s)), peers.clone(), true);
         let mut entry = json!({"sender": s, "new": table_json(&r1.route_deltas(deltas.clone()))});
         if contiguous && n >= 1 {
             let peer_list: Vec<String> = members.iter().filter(|m| **m != s).map(|m| format!("10.0.0.{m}:7000")).collect();
@@ -158,8 +181,10 @@ fn random_scn(rng: &mut impl Rng) -> Value {
         ops_b.push(json!(["remove", 8]));
     }
     let vn = [1u32, 2, 3, 150][rng.gen_range(0..4)];
+    // what the ring sees as replica ids: 1..8 as they are (from_config needs that), or mapped (see `real`)
+    let idmap = if contiguous { [0u64, 0, 1][rng.gen_range(0..3)] } else { rng.gen_range(0..5u64) };
     json!({"ops_a": ops_a, "ops_b": ops_b, "vnodes": vn, "rf": rng.gen_range(1..=4),
-           "nkeys": 12, "salt": rng.gen_range(0..1000)})
+           "nkeys": 12, "salt": rng.gen_range(0..1000), "idmap": idmap})
 }
 
 pub fn main(args: &[String]) -> i32 {
@@ -175,7 +200,12 @@ pub fn main(args: &[String]) -> i32 {
     };
     match a.pos.first().map(|s| s.as_str()) {
         Some("replay") => {
-            for s in read_ndjson(&a.pos[1]) {
+            for (i, s) in read_ndjson(&a.pos[1]).into_iter().enumerate() {
+                // the exported scenarios name nodes 1..n: every third one is placed under other replica ids
+                let mut s = s;
+                if s.get("idmap").is_none() {
+                    s["idmap"] = json!([0u64, 0, 1, 0, 0, 2, 0, 0, 3, 0, 0, 4][i % 12]);
+                }
                 emit(&s, &mut out);
             }
         }
